@@ -19,6 +19,13 @@ VF_CHUNK = '\n# Views file (custom spending views)\nviews_file: config/views.rul
 V_RULES = '''[Big]
 filter: total > 10
 '''
+# the user's views file while they are still writing it: a section without its filter (tally cannot load it; it is still theirs)
+X_RULES = '''[Big]
+filter: total > 10
+
+[Kids]
+description: to be written
+'''
 G_IGNORE = '# mine\n*.secret\n'
 # the user's merchants.rules without a single [rule] section: still their file (get_all_rules loads nothing from it)
 E_RULES = '''# my rules - sections still to be written
@@ -43,6 +50,31 @@ CMD_ARGS = {
     'up_migrate': ['up', '--migrate', '--format', 'json', '-q'],
     'init': ['init'],
 }
+
+
+# every command has many spellings (flags select what is SHOWN): what a command may touch does not depend on them.  Spelling 0
+# is the plain one above; the others are chosen per history and step.
+CMD_SPELLINGS = {
+    'explain': [['explain', 'Alfa'], ['explain', '--view', 'Big'], ['explain', '--view', 'Kids'], ['explain', '--category', 'Food'],
+                ['explain', 'ALFA STORE', '--amount', '5'], ['explain', '--tags', 'x', '--format', 'json'], ['explain'],
+                ['explain', 'Alfa', '--format', 'markdown', '-v'], ['explain', '--view', 'Big', '--format', 'json'],
+                ['explain', '--month', '2025-01'], ['explain', '--location', 'WA']],
+    'discover': [['discover', '--format', 'json'], ['discover'], ['discover', '--format', 'csv'], ['discover', '--limit', '0']],
+    'diag': [['diag'], ['diag', '--format', 'json']],
+    'inspect': [['inspect', 'data/card.csv'], ['inspect', 'data/card.csv', '--rows', '2'], ['inspect']],
+    'reference': [['reference'], ['reference', 'merchants'], ['reference', 'views']],
+    'up_json': [['up', '--format', 'json', '-q'], ['up', '--format', 'json', '-v'], ['up', '--format', 'markdown'],
+                ['up', '--format', 'json', '-q', '--category', 'Food'], ['up', '--format', 'json', '--tags', 'x'],
+                ['up', '--format', 'json', '--only', 'Big'], ['up', '--format', 'json', '--group-by', 'subcategory']],
+    'up_summary': [['up', '--format', 'summary'], ['up', '--summary'], ['up', '--summary', '-v']],
+}
+
+
+def spelling(c, hid, k):
+    forms = CMD_SPELLINGS.get(c)
+    if not forms:
+        return list(CMD_ARGS[c])
+    return list(forms[(sum(map(ord, hid)) * 5 + k * 11 + len(c)) % len(forms)])
 
 
 # commands that take the config directory as an optional positional argument
@@ -72,6 +104,8 @@ def concretise(fs, prefix='', crlf=False):
         t[cfg + 'merchants.rules'] = E_RULES
     if fs['views'] == 'V':
         t[cfg + 'views.rules'] = V_RULES
+    if fs['views'] == 'X':
+        t[cfg + 'views.rules'] = X_RULES
     if fs['data'] == 'D':
         t[prefix + 'data/card.csv'] = c15.DATA
     if fs['gitignore'] == 'G':
@@ -138,7 +172,7 @@ def abstract(snap, st, prefix='', crlf=False):
     else:
         out['rules'] = 'other'
     out['rulesbak'] = cls(cfg + 'merchants.rules.bak', {'U': c15.U_RULES, 'E': E_RULES, 'starter': st['rules']})
-    out['views'] = cls(cfg + 'views.rules', {'V': V_RULES, 'starter': st['views']})
+    out['views'] = cls(cfg + 'views.rules', {'V': V_RULES, 'X': X_RULES, 'starter': st['views']})
     out['data'] = cls(prefix + 'data/card.csv', {'D': c15.DATA})
     out['gitignore'] = cls(prefix + '.gitignore', {'G': G_IGNORE, 'starter': st['gitignore']})
     rep = get(prefix + 'output/spending_summary.html')
@@ -223,7 +257,8 @@ def _run_history(item):
         written = []
         hows = []
         for k, c in enumerate(cmds):
-            args = [a.replace('data/card.csv', prefix + 'data/card.csv') for a in CMD_ARGS[c]]
+            args = [a.replace('data/card.csv', prefix + 'data/card.csv') for a in spelling(c, hid, k)]
+            plain_args = list(args)
             # the budget may be ADDRESSED in several ways (found from the project folder, named on the command line - with or
             # without a trailing separator, relative or absolute -, named as "." from inside it, or through TALLY_CONFIG):
             # what a command may touch does not depend on the spelling
@@ -242,8 +277,8 @@ def _run_history(item):
                 elif mode == 6:
                     env_extra, how = {'TALLY_CONFIG': cfgrel + '/'}, 'TALLY_CONFIG'
                 if not os.path.isdir(os.path.join(d, cfgrel)):
-                    args, cwd, env_extra, how = [a.replace('data/card.csv', prefix + 'data/card.csv') for a in CMD_ARGS[c]], d, None, 'found'
-            hows.append(how)
+                    args, cwd, env_extra, how = plain_args, d, None, 'found'
+            hows.append(how + ' ' + ' '.join(plain_args))
             r = cli.run_tally(args, cwd=cwd, root=d, env_extra=env_extra)
             rcs.append(r['rc'])
             written.append(sorted({e['path'] for e in r['effects'] if 'path' in e}))
@@ -298,7 +333,7 @@ def run(ck):
     for k in range(150 if quick else 3000):
         fs0 = {'settings': {'base': rnd.choice(['absent', 'user', 'user', 'userref']), 'app': []},
                'csv': rnd.choice(['absent', 'R', 'R']), 'csvbak': rnd.choice(['absent', 'absent', 'B']), 'csvbak1': 'absent',
-               'rules': rnd.choice(['absent', 'U', 'E']), 'rulesbak': 'absent', 'views': rnd.choice(['absent', 'V']),
+               'rules': rnd.choice(['absent', 'U', 'E']), 'rulesbak': 'absent', 'views': rnd.choice(['absent', 'V', 'X']),
                'data': rnd.choice(['absent', 'D', 'D']), 'gitignore': rnd.choice(['absent', 'G']),
                'report': rnd.choice(['absent', 'old'])}
         cmds = [rnd.choice(['init', 'up_migrate', 'up_html', 'up_html'] + list(CMD_ARGS)) for _ in range(rnd.randint(1, 5))]
@@ -316,8 +351,8 @@ def run(ck):
         for k, (c, fr) in enumerate(zip(r['cmds'], r['frames'])):
             for clause, path in fr:
                 ck.violation({'site': c, 'clause': clause, 'path': path},
-                             {'fs0': r['states'][0], 'cmds': r['cmds'], 'step': k, 'detail': fr, 'args': CMD_ARGS[c], 'addressed': r.get('addressed'), 'id': r['id']},
-                             '`tally %s` (step %d of %s) %s %s' % (' '.join(CMD_ARGS[c]), k + 1, r['cmds'], clause, path))
+                             {'fs0': r['states'][0], 'cmds': r['cmds'], 'step': k, 'detail': fr, 'args': r['addressed'][k], 'addressed': r.get('addressed'), 'id': r['id']},
+                             '`tally %s` (step %d of %s) %s %s' % (r['addressed'][k].split(' ', 1)[-1], k + 1, r['cmds'], clause, path))
         if r['id'] in pred and pred[r['id']] != r['states']:
             conf_notes += 1
         recs.append({'id': r['id'], 'cmds': r['cmds'], 'states': r['states']})
